@@ -48,11 +48,13 @@ func (config *CacheConfig) Verify() error {
 func (config *CacheConfig) getChunkConfig() immunityChunkConfig {
 	numChunks := core.MaxUint32(config.NumChunks, 1)
 
+	// a chunk that is allowed to hold 0 items (or to evict 0 items at once) would never admit any item,
+	// so each chunk gets at least 1, even if the configured values are smaller than the number of chunks
 	return immunityChunkConfig{
 		cacheName:                   config.Name,
-		maxNumItems:                 config.MaxNumItems / numChunks,
-		maxNumBytes:                 config.MaxNumBytes / numChunks,
-		numItemsToPreemptivelyEvict: config.NumItemsToPreemptivelyEvict / numChunks,
+		maxNumItems:                 core.MaxUint32(config.MaxNumItems/numChunks, 1),
+		maxNumBytes:                 core.MaxUint32(config.MaxNumBytes/numChunks, 1),
+		numItemsToPreemptivelyEvict: core.MaxUint32(config.NumItemsToPreemptivelyEvict/numChunks, 1),
 	}
 }
 
